@@ -500,8 +500,8 @@ def _unique(a, return_index=False, return_inverse=False, return_counts=False, ax
         except (TypeError, ValueError):
             conc = aa
         return np.unique(conc, return_index=return_index, return_inverse=return_inverse, return_counts=return_counts, axis=axis, **kw)
-    if return_inverse or return_counts or not return_index:
-        raise Unsupported("np.unique on symbolic values: only return_index=True is modelled")
+    if return_inverse or return_counts:
+        raise Unsupported("np.unique on symbolic values: return_inverse / return_counts are not modelled")
     if axis is None:
         rows = [[x] for x in aa.reshape(-1)]
     elif axis == 0 and aa.ndim == 2:
@@ -540,7 +540,11 @@ def _unique(a, return_index=False, return_inverse=False, return_counts=False, ax
                 pos = k
                 break
         order.insert(pos, i)
-    return _Unsorted(), np.array(order, dtype=int)
+    # the sorted unique values themselves: the first occurrences, in sorted order
+    vals = sarr([rows[i][0] for i in order]) if axis is None else (sarr([rows[i] for i in order]) if order else np.zeros((0, aa.shape[1]), dtype=object).view(SArr))
+    if not return_index:
+        return vals
+    return vals, np.array(order, dtype=int)
 
 
 def _argext(a, axis, better):
